@@ -83,6 +83,11 @@ def c01_jobs(tier):
                 if elem_supports(el, op):
                     for (n, cap) in [(2, 2), (2, 4)]: js.append(ops_job(op, el, n, cap))
     js += two_basic(tier) + rng_basic(tier)
+    from .jobs import std_two_job, std_ops_job
+    for op in ['insert_n', 'push_back_c', 'erase_range', 'resize_v', 'assign_n', 'shrink', 'reserve', 'insert_range']:
+        js.append(std_ops_job(op, 'int', 2, 4)); js.append(std_ops_job(op, 'int', 0, 0) if op not in ('erase_range', 'shrink') else None)
+    for op in OPS2_ALL:
+        js.append(std_two_job(op, 'int', 2, 2, 2, 4)); js.append(std_two_job(op, 'int', 2, 3, 2, 5)); js.append(std_two_job(op, 'int', 3, 2, 3, 3))
     # element type bool from byte-sized integers (bulk-copy candidates) and ranges whose reference type is constructible but not assignable to value_type
     from .jobs import conv_job, rng_job
     for (s_, d_) in [('unsigned char', 'bool'), ('char', 'bool')]:
@@ -170,7 +175,10 @@ def c04_jobs(tier):
             for (n, cap) in cells(tier):
                 js.append(ops_job(op, 'int', n, cap, maxcnt=3))
                 js.append(ops_job(op, 'Tr', n, cap, fmask=J.K_ALL))
-    from .jobs import A_POCCA, A_POCMA, A_POCS, A_IAE
+    from .jobs import A_POCCA, A_POCMA, A_POCS, A_IAE, std_two_job, std_ops_job, OPS2_ALL
+    for op in OPS2_ALL:
+        js.append(std_two_job(op, 'int', 2, 2, 2, 4)); js.append(std_two_job(op, 'int', 2, 2, 4, 2)); js.append(std_two_job(op, 'int', 3, 2, 3, 3))
+    for op in ['insert_n', 'push_back_c', 'resize_v', 'shrink', 'reserve', 'clear', 'assign_n']: js.append(std_ops_job(op, 'int', 2, 4)); js.append(std_ops_job(op, 'Tr', 2, 2) if op in ('push_back_c', 'insert_n') else None)
     js += two_basic(tier, afls=((0, 1), (0, 0), (A_POCS, 0), (A_POCMA, 0), (A_POCCA, 0), (A_IAE, 0))) + rng_basic(tier)
     return _nn(js)
 REG['C04'] = Spec('C04', c04_jobs, explanation=
@@ -338,6 +346,10 @@ def c09_jobs(tier):
         js.append(two_job('move_assign', el, 2, 2, 2, 4, ideq=0, witness=['normal return', 'element-wise path']))   # unequal, non-propagating
         js.append(two_job('move_assign', el, 2, 2, 4, 2, witness=['normal return', 'element-wise path']))           # inline source
         js.append(two_job('swap', el, 2, 2, 4, 2, sizea=2, witness=['normal return']))
+        from .jobs import std_two_job
+        for op in ['move_ctor', 'move_assign', 'assign_move', 'swap']:   # std::allocator: always interchangeable
+            js.append(std_two_job(op, el, 2, 2, 2, 4, witness=['normal return', 'steal path'])); js.append(std_two_job(op, el, 2, 2, 4, 4, witness=['normal return', 'steal path']))
+        js.append(std_two_job('move_ctor', el, 2, 3, 2, 5, witness=['normal return', 'steal path'])); js.append(std_two_job('assign_move', el, 3, 2, 3, 3, witness=['normal return', 'element-wise path']))
     else:
         for op in ['move_ctor', 'move_ctor_alloc', 'move_assign', 'assign_move', 'swap', 'nm_swap']:
             for (afl, ideq) in [(0, 1), (0, 0), (A_IAE, 0), (A_POCMA, 0), (A_POCS, 0), (A_POCMA | A_POCS, 1)]:
